@@ -13,7 +13,7 @@ from sim.term import TermModel
 
 PROP = "C02"
 LEVEL = "exploration"
-COUNTS = {"quick": 40000, "thorough": 1500000}
+COUNTS = {"quick": 60000, "thorough": 3000000}
 MAX_SECONDS = {"quick": 100, "thorough": 1500}
 DET_EVERY = {"quick": 40, "thorough": 400}
 SHRINK_BUDGET = 600
